@@ -14,7 +14,31 @@ from plumpy.utils import AttributesFrozendict, is_mutable_property, type_check
 __all__ = ['UNSPECIFIED', 'InputPort', 'OutputPort', 'Port', 'PortNamespace', 'PortValidationError']
 
 _LOGGER = logging.getLogger(__name__)
-UNSPECIFIED = ()
+
+
+class _Unspecified(tuple):
+    """The type of ``UNSPECIFIED``, the marker for a value or default that was not given.
+
+    It still is an empty tuple, as it always was, but one of its own kind of which there is only a single instance (also
+    after copying and unpickling), so that an empty tuple given as a value or as a default is not mistaken for it.
+    """
+
+    __slots__ = ()
+
+    def __copy__(self) -> '_Unspecified':
+        return self
+
+    def __deepcopy__(self, memo: Any) -> '_Unspecified':
+        return self
+
+    def __reduce__(self) -> str:
+        return 'UNSPECIFIED'
+
+    def __repr__(self) -> str:
+        return 'UNSPECIFIED'
+
+
+UNSPECIFIED = _Unspecified()
 
 VALIDATOR_SIGNATURE_DEPRECATION_WARNING = """the validator `{}` has a signature that only takes a single argument.
     This has been deprecated and the new signature is `validator(value, port)` where the `port` argument will be the
